@@ -5,7 +5,9 @@ import (
 	"encoding/json"
 	"fmt"
 	"os"
+	"slices"
 	"sort"
+	"strings"
 	"sync"
 	"testing"
 	"testing/synctest"
@@ -134,7 +136,7 @@ func coqAtoms(xs []string) string {
 
 // ---- white-box database differential -------------------------------------------------------------
 
-func runDBCase(t *testing.T, ops []dbOp) (coq string, flags map[string]bool) {
+func runDBCase(t *testing.T, ops []dbOp) (coq string, flags map[string]bool, problems []string) {
 	flags = map[string]bool{}
 
 	db, err := cruntime.VerifNewDepDB()
@@ -144,6 +146,24 @@ func runDBCase(t *testing.T, ops []dbOp) (coq string, flags map[string]bool) {
 
 	var items []string
 
+	// a lookup result belongs to the caller: the runtime walks it after the database lock is released, so later
+	// registrations must not change it (held = the slice as returned, want = its contents at that time)
+	type heldLookup struct {
+		what string
+		held []string
+		want []string
+	}
+
+	var held []heldLookup
+
+	checkHeld := func(after string) {
+		for _, h := range held {
+			if !slices.Equal(h.held, h.want) {
+				problems = append(problems, fmt.Sprintf("lookup-aliased: the result of GetDependentControllers(%s) was %v when returned and reads %v after %s: it shares memory with the lookup table", h.what, h.want, h.held, after))
+			}
+		}
+	}
+
 	query := func() {
 		for _, ns := range c17NS {
 			for _, typ := range c17Types {
@@ -151,6 +171,11 @@ func runDBCase(t *testing.T, ops []dbOp) (coq string, flags map[string]bool) {
 					deps, err := db.GetDependentControllers(controller.Input{Namespace: ns, Type: typ, ID: optional.Some(id)})
 					if err != nil {
 						t.Fatal(err)
+					}
+
+					if len(held) < 200 {
+						// also what an append by the caller would clobber: look at the full capacity
+						held = append(held, heldLookup{what: ns + "/" + typ + "/" + id, held: deps[:cap(deps)], want: slices.Clone(deps[:cap(deps)])})
 					}
 
 					items = append(items, fmt.Sprintf("(DDependents %s %s %s %s)", coqAtom(ns), coqAtom(typ), coqAtom(id), coqAtoms(deps)))
@@ -206,11 +231,15 @@ func runDBCase(t *testing.T, ops []dbOp) (coq string, flags map[string]bool) {
 		case "query":
 			query()
 		}
+
+		if o.Op != "query" {
+			checkHeld(o.Op + " " + o.Name)
+		}
 	}
 
 	query()
 
-	return coqList(items), flags
+	return coqList(items), flags, problems
 }
 
 // ---- registration histories through the public API ------------------------------------------------
@@ -658,7 +687,11 @@ func TestC17(t *testing.T) {
 
 		switch c.Kind {
 		case "db":
-			coq, flags := runDBCase(t, c.DB)
+			coq, flags, problems := runDBCase(t, c.DB)
+
+			for _, p := range problems {
+				rep.violateKey(i, strings.SplitN(p, ":", 2)[0], p, map[string]any{"case": c})
+			}
 			dbf.add(coq)
 			dbJL = append(dbJL, map[string]any{"case": c})
 			rep.count(string(key), len(flags) > 0)
